@@ -2,12 +2,18 @@
    examples and the liveness schedule. *)
 Require Import TSS.Base.Base TSS.Disc.Sort TSS.Disc.Model TSS.Disc.Local TSS.Disc.Global.
 
+Definition errc_eqb (a b : errc) : bool :=
+  match a, b with
+  | ECollect, ECollect | ETooMany, ETooMany | EAcks, EAcks | EQueries, EQueries => true
+  | _, _ => false
+  end.
+
 Definition out_eqb (a b : output) : bool :=
   match a, b with
   | Bcast t v, Bcast t' v' => mty_eqb t t' && view_eqb v v'
   | SendTo x t v, SendTo x' t' v' => (x =? x') && mty_eqb t t' && view_eqb v v'
   | Continue l, Continue l' => view_eqb l l'
-  | Return_err, Return_err => true
+  | Return_err e, Return_err e' => errc_eqb e e'
   | _, _ => false
   end.
 
@@ -21,22 +27,23 @@ Proof.
   - apply andb_true_iff in H. destruct H as [H12 H3]. apply andb_true_iff in H12. destruct H12 as [H1 H2].
     apply N.eqb_eq in H1. apply mty_eqb_eq in H2. apply view_eqb_spec in H3. congruence.
   - apply view_eqb_spec in H. congruence.
+  - destruct e, e0; simpl in H; try discriminate; reflexivity.
 Qed.
 
 Section Exec.
 Variable tp : N.
 Variable mem : list N.
 Variable exp : nat.
-Variables fx fs : bool.
+Variables fx fs fq : bool.
 Variable Hn : list N.          (* the honest members *)
 
 Definition honestL (x : N) : Prop := In x Hn.
 
 Notation gstate := Global.gstate.
-Notation gstep := (Global.gstep tp mem exp fx fs).
-Notation cfgOf := (Global.cfgOf tp mem exp fx fs).
-Notation reachable := (Global.reachable tp mem exp fx fs honestL).
-Notation admissible := (Global.admissible tp mem exp fx fs honestL).
+Notation gstep := (Global.gstep tp mem exp fx fs fq).
+Notation cfgOf := (Global.cfgOf tp mem exp fx fs fq).
+Notation reachable := (Global.reachable tp mem exp fx fs fq honestL).
+Notation admissible := (Global.admissible tp mem exp fx fs fq honestL).
 
 Definition emitted_b (S : gstate) (x : N) (o : output) : bool :=
   existsb (fun yo => (fst yo =? x) && out_eqb (snd yo) o) (emitted S).
